@@ -77,6 +77,13 @@ where
         // the path is expected to be of the specified depth.
         let path = self.host.borrow_mut().get_adv_merkle_path(self)?;
 
+        // the depth is not an input of the hasher's computation: a path of another length would
+        // verify a node of another depth against the root
+        let depth = self.stack.get(4);
+        if path.len() != depth.as_int() as usize {
+            return Err(ExecutionError::InvalidTreeDepth { depth });
+        }
+
         // use hasher to compute the Merkle root of the path
         let (addr, computed_root) = self.chiplets.build_merkle_root(node, &path, index);
 
@@ -151,7 +158,9 @@ where
             .set_advice(self, AdviceInjector::UpdateMerkleNode)?
             .into();
 
-        assert_eq!(path.len(), depth.as_int() as usize);
+        if path.len() != depth.as_int() as usize {
+            return Err(ExecutionError::InvalidTreeDepth { depth });
+        }
 
         let merkle_tree_update = self.chiplets.update_merkle_root(old_node, new_node, &path, index);
 
